@@ -410,6 +410,8 @@ def run_case(case, scratch):
         pass
     for _, v in cfg0.items():
         collect(v, strs, set())
+    for _, v in dflt.items():            # the model serialises the declared defaults too (skip_default, class 8)
+        collect(v, strs, set())
     so = []
     for s in sorted(strs):
         try:
